@@ -26,7 +26,7 @@
 (* The wire is abstract: a function from field NUMBERS to entries          *)
 (* [kind, ref, key, rep, val]; an entry can be read by a declaration only  *)
 (* if number, type, referenced type, map key type and repetition agree,    *)
-(* otherwise the field is lost (unknown field) or garbled (value 99).         *)
+(* otherwise the field is lost (unknown field) or garbled (value 99).      *)
 (* Byte-level encodings (varints, zig-zag, packing) are protobuf's job.    *)
 (*                                                                         *)
 (* Names are sequences of words [l |-> "size", c |-> "Size"] because TLC   *)
